@@ -46,7 +46,11 @@ impl<'c> Slice<'c> {
         let block = read_block_as(&mut src, ContentType::CoreData)?;
         let core_data_src = block.decode()?;
 
-        let external_data_block_count = self.header.block_count() - 1;
+        let external_data_block_count = self
+            .header
+            .block_count()
+            .checked_sub(1)
+            .ok_or_else(|| io::Error::new(io::ErrorKind::InvalidData, "invalid block count"))?;
         let external_data_srcs = (0..external_data_block_count)
             .map(|_| {
                 let block = read_block_as(&mut src, ContentType::ExternalData)?;
